@@ -247,6 +247,16 @@ def case_for(prop, tier, seed, idx):
                 o["pre"] = [rng.choice(["garbage", "empty", "wrong-type"])]
             elif r < 0.28:
                 o["pre"] = ["peek", rng.choice(["garbage", "wrong-type"])]
+    if case["machine"] in ("M-CI", "M-IM", "M-RP", "M-MO", "M-XF") and rng.random() < 0.15:
+        # the stored document was re-saved by another tool before one of the restarts: other key order, same content
+        idxs = [i for i, o in enumerate(case["ops"]) if o.get("op") == "restart"]
+        if idxs:
+            i = rng.choice(idxs)
+            o = case["ops"][i]
+            ro = {"op": "fs_reorder_json", "path": o.get("path"), "seed": rng.randrange(1 << 30), "how": rng.choice(["shuffle", "shuffle", "reverse"])}
+            if "slot" in o:
+                ro["slot"] = o["slot"]
+            case["ops"].insert(i, ro)
     if rng.random() < 0.15 and case["ops"]:
         amb = [{"op": "ambient", "fn": "create_release_id", "args": ["f", "22", rng.choice(["bogus", "security-respin", "beta", "ga", "updates"])]},
                {"op": "ambient", "fn": "create_release_id", "args": ["rhel", "7.0", "ga", "f", "22", rng.choice(["bogus", "lts"])]},
